@@ -134,6 +134,12 @@ def model_validation(src, tier, seed):
         r1 = subprocess.run([PY, os.path.join(ROOT, 'validate', 'record.py'), src, rec, which],
                             capture_output=True, text=True)
         ok, detail, n = False, '', 0
+        ru = subprocess.run([PY, os.path.join(ROOT, 'validate', 'unit.py')], capture_output=True, text=True)
+        if ru.returncode != 0:
+            out = {'ok': False, 'scenes': 0, 'which': which, 'detail': 'differential unit tests of the models failed: ' + ru.stdout[-1500:],
+                   'wall_s': round(time.time() - t0, 1)}
+            json.dump(out, open(cfile, 'w'))
+            return out
         if r1.returncode == 0:
             r2 = subprocess.run([PY, os.path.join(ROOT, 'validate', 'cosim.py'), src, rec],
                                 capture_output=True, text=True)
@@ -147,7 +153,8 @@ def model_validation(src, tier, seed):
             os.remove(rec)
         except OSError:
             pass
-        out = {'ok': ok, 'scenes': n, 'which': which, 'detail': detail, 'wall_s': round(time.time() - t0, 1)}
+        out = {'ok': ok, 'scenes': n, 'which': which, 'detail': detail, 'unit_tests': ru.stdout.strip().splitlines()[-1] if ru.stdout.strip() else '',
+               'wall_s': round(time.time() - t0, 1)}
         json.dump(out, open(cfile, 'w'))
         return out
 
